@@ -137,6 +137,7 @@ class StreamRead(Component):
         return 'E/' in impl and impl.count(';') >= 1
 
 PROPS = {}
+NOT_YET = {}
 
 PROPS['C16'] = dict(
     module='FlacModel.Props.C16',
@@ -147,6 +148,12 @@ PROPS['C16'] = dict(
          'garbage (none / 0xFF-free / with planted FF F8|F9) between them, source segmented (max-N reads or random split points), '
          'read back by FlacStreamReader and by the Lean model of it; non-trivial = at least two results in the sequence; '
          'streamread: random bytes with planted sync codes in both build profiles',
+    claim='Theorems over the model of FlacStreamReader::read, for arbitrary (unbounded) input bytes: stream_no_fabrication (every returned frame is the '
+          'checksum-valid decoding of a contiguous input range that starts at FF F8|F9; the rest is what follows it), stream_results_ascending, '
+          'no_sync_no_loss_partial (0xFF-free garbage costs no frame, given that the written frame decodes - C01). The model is tied to the code on '
+          'every run by generated frame sequences with garbage and source segmentations, compared result by result.',
+    note='Trusted: Lean kernel, translate.py, harness. Segmentation independence holds of the model by construction and is only exhibited for the '
+         'implementation; bitstream-io/BufRead are modelled, not verified.',
     trusted_base=COMMON_TRUST,
     assumptions=['segmentation independence is a property of the model by construction (the model never sees the split points); '
                  'for the implementation it is exhibited by the correspondence over generated segmentations, not proved',
